@@ -30,7 +30,7 @@ defprog! {
       relation r_join2(u32, u32) [];
       relation r_two(u32, u32, u32) [];
    }
-   gens: [("random", gens::random), ("small", gens::small)];
+   gens: [("random", gens::random), ("small", gens::small), ("eq_merge", gens::eq_merge)];
    rules: {
       eq(x, y) <-- pair(x, y);
       r_ff(x, y) <-- eq(x, y);
@@ -104,7 +104,7 @@ defprog! {
       relation eq_out(u32, u32) [];
       relation same(u32, u32) [];
    }
-   gens: [("random", gens::random), ("small", gens::small)];
+   gens: [("random", gens::random), ("small", gens::small), ("eq_merge", gens::eq_merge)];
    rules: {
       eq(x, y) <-- pair(x, y);
       eq(a, b) <-- eq(x, y), f(x, a), f(y, b);
@@ -167,7 +167,7 @@ defprog! {
       relation class_size(u32, usize) [];
       relation both(u32, u32) [];
    }
-   gens: [("random", gens::random), ("small", gens::small)];
+   gens: [("random", gens::random), ("small", gens::small), ("eq_merge", gens::eq_merge)];
    rules: {
       eq1(x, y) <-- pair(x, y);
       eq2(x, y) <-- pair2(x, y);
@@ -218,8 +218,64 @@ defprog! {
    }
 }
 
+// ---- 4. congruence closure: the classic shape; late iterations merge known classes only -----
+defprog! {
+   name: eq_congruence;
+   timeouts: no;
+   positive: true;
+   tags: ["c10"];
+   reference: "eq_congruence_ref";
+   rels: {
+      relation pair(u32, u32) [input];
+      relation f(u32, u32) [input];
+      relation node(u32) [input];
+      relation #[ds(ascent_byods_rels::eqrel)] eq(u32, u32) [noio];
+      relation eq_out(u32, u32) [];
+      relation rep(u32, u32) [];
+      relation merged_late(u32, u32) [];
+   }
+   gens: [("eq_merge", gens::eq_merge), ("random", gens::random)];
+   rules: {
+      eq(x, y) <-- pair(x, y);
+      eq(c, d) <-- eq(a, b), f(a, c), f(b, d);
+      eq(c, d) <-- f(a, c), f(b, d), eq(a, b2), node(c), if b == b2;
+      merged_late(x, y) <-- node(x), eq(x, y), f(y, _), if x < y;
+      eq_out(x, y) <-- eq(x, y);
+      rep(x, y) <-- node(x), eq(x, y), if y <= x;
+   }
+}
+
+defprog! {
+   name: eq_congruence_ref;
+   timeouts: no;
+   positive: true;
+   tags: ["ref"];
+   rels: {
+      relation pair(u32, u32) [input];
+      relation f(u32, u32) [input];
+      relation node(u32) [input];
+      relation eq(u32, u32) [];
+      relation eq_out(u32, u32) [];
+      relation rep(u32, u32) [];
+      relation merged_late(u32, u32) [];
+   }
+   gens: [("random", gens::random)];
+   rules: {
+      eq(x, x), eq(y, y), eq(y, x) <-- eq(x, y);
+      eq(x, z) <-- eq(x, y), eq(y, z);
+      eq(x, y) <-- pair(x, y);
+      eq(c, d) <-- eq(a, b), f(a, c), f(b, d);
+      eq(c, d) <-- f(a, c), f(b, d), eq(a, b2), node(c), if b == b2;
+      merged_late(x, y) <-- node(x), eq(x, y), f(y, _), if x < y;
+      eq_out(x, y) <-- eq(x, y);
+      rep(x, y) <-- node(x), eq(x, y), if y <= x;
+   }
+}
+
 pub fn all() -> Vec<ProgramDef> {
    vec![
+      eq_congruence::def(),
+      eq_congruence_ref::def(),
       eq_access::def(),
       eq_access_ref::def(),
       eq_recursive::def(),
